@@ -38,7 +38,11 @@ impl<const BITS: usize, const LIMBS: usize> Decode for Uint<BITS, LIMBS> {
                 expected: nbytes(BITS),
             });
         }
-        Ok(Self::from_le_slice(bytes))
+        Self::try_from_le_slice(bytes).ok_or_else(|| {
+            DecodeError::BytesInvalid(alloc::format!(
+                "value is larger than fits the {BITS}-bit Uint"
+            ))
+        })
     }
 }
 
